@@ -93,28 +93,33 @@ Section W.
     | CMark i org => s2l " MARK" ++ dec_nat i ++ s2l "qs      'MARKER'    '" ++ (if org then s2l "INTORG" else s2l "INTEND") ++ s2l "'"
     | CEnt c r v => s2l "  " ++ c ++ s2l "    " ++ r ++ s2l "    " ++ print_num v
     end.
-  Definition mrec_line (rn : mrec * name) : line :=
+  (* [bn] is the name of the BOUNDS set (the writer as found: "BOUND") *)
+  Definition mrec_line_gen (bn : name) (rn : mrec * name) : line :=
     match fst rn with
-    | MFX v => s2l " FX BOUND    " ++ snd rn ++ s2l "    " ++ print_num v
-    | MFR => s2l " FR BOUND    " ++ snd rn
-    | MMI => s2l " MI BOUND    " ++ snd rn
-    | MLO v => s2l " LO BOUND    " ++ snd rn ++ s2l "    " ++ print_num v
-    | MPL => s2l " PL BOUND    " ++ snd rn
-    | MUP v => s2l " UP BOUND    " ++ snd rn ++ s2l "    " ++ print_num v
+    | MFX v => s2l " FX " ++ bn ++ s2l "    " ++ snd rn ++ s2l "    " ++ print_num v
+    | MFR => s2l " FR " ++ bn ++ s2l "    " ++ snd rn
+    | MMI => s2l " MI " ++ bn ++ s2l "    " ++ snd rn
+    | MLO v => s2l " LO " ++ bn ++ s2l "    " ++ snd rn ++ s2l "    " ++ print_num v
+    | MPL => s2l " PL " ++ bn ++ s2l "    " ++ snd rn
+    | MUP v => s2l " UP " ++ bn ++ s2l "    " ++ snd rn ++ s2l "    " ++ print_num v
     end.
+  Definition mrec_line : mrec * name -> line := mrec_line_gen (s2l "BOUND").
 
-  Definition render (S : msections) : list line :=
+  (* [rh] [rg] [bn]: the names of the RHS, RANGES and BOUNDS sets *)
+  Definition render_gen (rh rg bn : name) (S : msections) : list line :=
     [s2l "NAME    " ++ sec_name S; s2l "OBJSENSE"; if sec_max S then s2l "  MAX" else s2l "  MIN";
      s2l "OBJNAME"; s2l "  " ++ sec_objname S; s2l "ROWS"; s2l " N  " ++ sec_objname S] ++
     map (fun sr => sense_key (fst sr) ++ snd sr) (sec_rows S) ++
     [s2l "COLUMNS"] ++ map citem_line (sec_cols S) ++
-    [s2l "RHS"] ++ map (fun e => s2l " RHS    " ++ fst e ++ s2l "    " ++ print_num (snd e)) (sec_rhs S) ++
+    [s2l "RHS"] ++ map (fun e => " "%char :: rh ++ s2l "    " ++ fst e ++ s2l "    " ++ print_num (snd e)) (sec_rhs S) ++
     (match sec_ranges S with
-     | Some l => s2l "RANGES" :: map (fun e => s2l " RANGE    " ++ fst e ++ s2l "    " ++ print_num (snd e)) l
+     | Some l => s2l "RANGES" :: map (fun e => " "%char :: rg ++ s2l "    " ++ fst e ++ s2l "    " ++ print_num (snd e)) l
      | None => []
      end) ++
-    (match sec_bounds S with [] => [] | l => s2l "BOUNDS" :: map mrec_line l end) ++
+    (match sec_bounds S with [] => [] | l => s2l "BOUNDS" :: map (mrec_line_gen bn) l end) ++
     [s2l "ENDATA"].
+  (* the writer as found: fixed set names *)
+  Definition render : msections -> list line := render_gen (s2l "RHS") (s2l "RANGE") (s2l "BOUND").
 
   Definition write_mps (P : mlp) : list line := render (sections_of P).
 
